@@ -751,6 +751,18 @@ pub fn check(case: &SchedCase, acc: &mut Acc, c11: bool) -> (Check, Vec<ChoicePo
 
 /// Stateless DFS over the choice tree of one (program, config) with a preemption bound.
 pub fn explore(cx: &Cx, phase: &str, base: &SchedCase, max_preempt: usize, cap: usize, acc: &mut Acc, c11: bool) -> bool {
+    explore_with(cx, phase, base, max_preempt, cap, acc, &|c, a| check(c, a, c11))
+}
+
+pub fn explore_with(
+    cx: &Cx,
+    phase: &str,
+    base: &SchedCase,
+    max_preempt: usize,
+    cap: usize,
+    acc: &mut Acc,
+    f: &dyn Fn(&SchedCase, &mut Acc) -> (Check, Vec<ChoicePoint>),
+) -> bool {
     let mut prefix: Vec<u8> = Vec::new();
     let mut n = 0usize;
     loop {
@@ -760,7 +772,7 @@ pub fn explore(cx: &Cx, phase: &str, base: &SchedCase, max_preempt: usize, cap: 
         };
         let mut log = Vec::new();
         acc.run_case(cx, phase, &case, |acc| {
-            let (r, l) = check(&case, acc, c11);
+            let (r, l) = f(&case, acc);
             log = l;
             r
         });
@@ -918,6 +930,56 @@ fn run_common(cx: &Cx, c11: bool) -> Acc {
     let n = cx.tier.pick(1u64, 20u64);
     let phase_r = if c11 { "sched-abort-random" } else { "sched-random" };
     acc.merge(par_proptest(cx, phase_r, if c11 { 60_000 * n } else { 150_000 * n }, move || random_strategy(c11), |c, acc| check(c, acc, c11).0));
+    acc
+}
+
+/// C12 under interleavings: the consumer samples size_hint()/is_end_stream() before every poll
+/// while the producer runs concurrently; only the hint / end-of-stream monitors can fail here.
+pub fn check_c12(case: &SchedCase, acc: &mut Acc) -> (Check, Vec<ChoicePoint>) {
+    let out = execute(case);
+    let log = out.log.clone();
+    let ctx = || format!("case {}; history: {}", serde_json::to_string(case).unwrap_or_default(), out.events.join(" | "));
+    if let Some(v) = &out.violation {
+        if v.sig.starts_with("internal:") {
+            acc.internal_errors.push(format!("{}: {}", v.sig, v.msg));
+        } else {
+            acc.count("progress-or-abort-violation-seen(see C10/C11)");
+        }
+        return (Ok(()), log);
+    }
+    let r = check_eos_truthful(&out.trace, "scheduled-streaming")
+        .and_then(|_| crate::drain::check_hints(&out.trace, false, "scheduled-streaming"))
+        .map_err(|f| Fail { sig: f.sig, msg: format!("{}; {}", f.msg, ctx()) });
+    if r.is_ok() {
+        let changed = out.trace.steps.windows(2).any(|w| w[0].lower != w[1].lower || w[0].upper != w[1].upper);
+        acc.note(
+            if case.program.iter().any(|o| matches!(o, POp::Abort)) { "scheduled-streaming:abort" } else { "scheduled-streaming:clean-end" },
+            changed && out.trace.steps.len() >= 3,
+            fingerprint(&(&case.program, case.cfg, &case.choices, case.chunk)),
+            || json!({"case": case, "history": out.events}),
+        );
+    }
+    (r, log)
+}
+
+pub fn run_for_c12(cx: &Cx) -> Acc {
+    let mut acc = Acc::new();
+    let max_len = cx.tier.pick(3usize, 4usize);
+    let mut units: Vec<SchedCase> = Vec::new();
+    for program in programs(max_len, true) {
+        for fresh_waker in [false, true] {
+            units.push(SchedCase {
+                chunk: 2,
+                program: program.clone(),
+                cfg: CCfg { fresh_waker, spurious: 1, sample: true, extra_polls: 1 },
+                choices: vec![],
+            });
+        }
+    }
+    let cap = cx.tier.pick(1500usize, 20_000usize);
+    acc.merge(par_units(cx, "sched-sampled", &units, false, "schedules (<= 2 preemptions, capped) with size_hint/is_end_stream sampled before every poll", |cx, base, acc| {
+        explore_with(cx, "sched-sampled", base, 2, cap, acc, &|c, a| check_c12(c, a));
+    }));
     acc
 }
 
